@@ -101,6 +101,7 @@ type ContractDB struct {
 	fset       *token.FileSet
 	sweeps     map[*packages.Package]*sweepSpec
 	typeInvs   map[string][]typeInv // "pkgpath.TypeName" -> invariants
+	objInvs    map[string][]*objInv // "pkgpath.TypeName" -> object invariants (objinv.go)
 	frameProps map[string][]string  // heap array key -> extra properties of its frame obligations
 	umbrella   map[string][]string  // property -> properties whose obligations it includes
 	stale      []string             // clauses dropped because they name something the code no longer has
@@ -142,7 +143,7 @@ func parseClauseHead(rest string) (props []string, label, text string) {
 }
 
 func loadContracts(prog *ssa.Program, pkgs []*packages.Package) *ContractDB {
-	db := &ContractDB{byFn: map[*ssa.Function]*Contract{}, byKey: map[string]*Contract{}, files: map[*packages.Package]*ast.File{}, fset: prog.Fset, sweeps: map[*packages.Package]*sweepSpec{}, typeInvs: map[string][]typeInv{}, frameProps: map[string][]string{}, umbrella: map[string][]string{}}
+	db := &ContractDB{byFn: map[*ssa.Function]*Contract{}, byKey: map[string]*Contract{}, files: map[*packages.Package]*ast.File{}, fset: prog.Fset, sweeps: map[*packages.Package]*sweepSpec{}, typeInvs: map[string][]typeInv{}, objInvs: map[string][]*objInv{}, frameProps: map[string][]string{}, umbrella: map[string][]string{}}
 	for _, pkg := range pkgs {
 		for i, f := range pkg.Syntax {
 			name := pkg.CompiledGoFiles[i]
@@ -238,6 +239,12 @@ func (db *ContractDB) parseFile(prog *ssa.Program, pkg *packages.Package, f *ast
 				props, label, text := parseClauseHead(strings.TrimSpace(r2))
 				key := pkg.PkgPath + "." + strings.TrimSuffix(tn, ":")
 				db.typeInvs[key] = append(db.typeInvs[key], typeInv{label: label, text: text, props: props, line: where})
+			case "objinv":
+				// objinv TypeName [props] label: expr over self   (objinv.go)
+				tn, r2, _ := strings.Cut(rest, " ")
+				props, label, text := parseClauseHead(strings.TrimSpace(r2))
+				key := pkg.PkgPath + "." + strings.TrimSuffix(tn, ":")
+				db.objInvs[key] = append(db.objInvs[key], newObjInv(pkg, label, text, props, where))
 			case "umbrella":
 				// umbrella C01 C07 C10 …: the check of the first property also runs the
 				// obligations of the others (it is stated as their conjunction)
